@@ -125,12 +125,14 @@ function printRef(e, sites) {
 // position JavaScript skipped whose evaluation on its own throws)
 const REF_PRELUDE = 'const SPREAD = (x) => { if (!Array.isArray(x)) FLAGS.nonArraySpread = true; else if (Object.keys(x).length !== x.length) FLAGS.holeySpread = true; return x }; const GET = (o, k) => (o === null || o === undefined ? undefined : o[k]); const CALL = (f, args) => (typeof f === "function" ? (0, f)(...args) : undefined);'
 
-function compileRef(e) {
+/** `lenientSpread`: spread like the generated code does ([].concat: a non-array is one element) — used by the TREE reference
+ *  renderer, so that the spread deviation recorded under C03 is judged there and nowhere else */
+function compileRef(e, lenientSpread) {
   const sites = []
   const body = printRef(e, sites)
   const siteDefs = 'const SITE = [' + sites.map((c) => '() => ' + c).join(', ') + ']; FLAGS.SITE = SITE; FLAGS.evaluated = []; const HOIST = (n) => { FLAGS.evaluated[n] = true; return SITE[n]() };'
   // eslint-disable-next-line no-new-func
-  return new Function('$', 'FLAGS', REF_PRELUDE + siteDefs + ' return ' + body)
+  return new Function('$', 'FLAGS', (lenientSpread ? REF_PRELUDE.replace('return x };', 'return Array.isArray(x) ? x : [x] };') : REF_PRELUDE) + siteDefs + ' return ' + body)
 }
 
 function freeNames(e, out = new Set()) {
